@@ -204,8 +204,11 @@ bool Parser::parseDeclarationOrStructDeclaration_AtFollowOfSpecifiers(
         bool (Parser::*parse_AtDeclarator)(DeclarationSyntax*&, const SpecifierListSyntax*))
 {
     if (decl) {
+        // A tag declaration of its own... unless other specifiers come with it
+        // (`typedef struct S { int m; };'): those belong to the tree as well.
         if (parse_AtDeclarator != &Parser::parseStructDeclaration_AtDeclarator
-                && peek().kind() == SyntaxKind::SemicolonToken) {
+                && peek().kind() == SyntaxKind::SemicolonToken
+                && !(specList && specList->next)) {
             auto tagDecl = static_cast<TagDeclarationSyntax*>(decl);
             tagDecl->semicolonTkIdx_ = consume();
             return true;
@@ -224,6 +227,11 @@ bool Parser::parseDeclarationOrStructDeclaration_AtFollowOfSpecifiers(
                     break;
                 }
             }
+        }
+        if (parse_AtDeclarator != &Parser::parseStructDeclaration_AtDeclarator
+                && peek().kind() == SyntaxKind::SemicolonToken) {
+            parseIncompleteDeclaration_AtFirst(decl, specList);
+            return true;
         }
     } else if (peek().kind() == SyntaxKind::SemicolonToken) {
         parseIncompleteDeclaration_AtFirst(decl, specList);
